@@ -35,8 +35,9 @@ type Msg struct {
 	Headers                   p2p.Headers
 	WasReset                  bool // the sender reset the stream after opening it
 
-	mu  sync.Mutex
-	buf bytes.Buffer
+	mu     sync.Mutex
+	buf    bytes.Buffer
+	closed bool // the sender closed its side (guarded by Net.mu)
 }
 
 // Data returns the bytes written by the sender so far.
@@ -61,6 +62,8 @@ type Net struct {
 	queue []*Msg
 	seq   int
 	dials []Dial
+	all   []*Msg     // every message ever opened
+	cond  *sync.Cond // signalled when a sender closes a stream
 
 	// Canon gives the canonical text of a message (timestamps, signatures etc.
 	// removed). It orders InFlight and identifies interchangeable messages.
@@ -76,7 +79,54 @@ func New(canon func(*Msg) string) *Net {
 			return fmt.Sprintf("%s>%s %s %x", m.From, m.To, m.Stream, m.Data())
 		}
 	}
-	return &Net{nodes: map[string]map[string]p2p.HandlerFunc{}, Canon: canon}
+	n := &Net{nodes: map[string]map[string]p2p.HandlerFunc{}, Canon: canon}
+	n.cond = sync.NewCond(&n.mu)
+	return n
+}
+
+// WaitClosed blocks until the node `from` has opened and closed (Close/FullClose, i.e.
+// finished writing) at least k streams, or until done is closed. It is the
+// synchronisation point for code under test that sends from its own goroutine
+// (e.g. a handler blocked in a request/response exchange): no sleeping, no polling.
+// It reports whether the k streams were seen.
+func (n *Net) WaitClosed(from boson.Address, k int, done <-chan struct{}) bool {
+	stop := make(chan struct{})
+	defer close(stop)
+	go func() {
+		select {
+		case <-done:
+			n.mu.Lock()
+			n.cond.Broadcast()
+			n.mu.Unlock()
+		case <-stop:
+		}
+	}()
+	n.mu.Lock()
+	defer n.mu.Unlock()
+	for {
+		c := 0
+		for _, m := range n.all {
+			if m.closed && m.From.Equal(from) {
+				c++
+			}
+		}
+		if c >= k {
+			return true
+		}
+		select {
+		case <-done:
+			return false
+		default:
+		}
+		n.cond.Wait()
+	}
+}
+
+func (n *Net) markClosed(m *Msg) {
+	n.mu.Lock()
+	m.closed = true
+	n.cond.Broadcast()
+	n.mu.Unlock()
 }
 
 func hkey(protocol, version, stream string) string { return protocol + "/" + version + "/" + stream }
@@ -184,7 +234,8 @@ func (s *Streamer) open(kind string, to boson.Address, h p2p.Headers, protocol, 
 	n.seq++
 	m := &Msg{Seq: n.seq, From: s.self, To: to, Protocol: protocol, Version: version, Stream: stream, Headers: h}
 	n.queue = append(n.queue, m)
-	return &outStream{m: m}, nil
+	n.all = append(n.all, m)
+	return &outStream{m: m, net: n}, nil
 }
 
 // NewStream never blocks: it creates an in-flight message.
@@ -204,7 +255,10 @@ func (s *Streamer) Ping(context.Context, ma.Multiaddr) (time.Duration, error) { 
 
 // outStream: what the opener of a stream holds. Writes go into the message;
 // there is nothing to read (queued delivery is one-way).
-type outStream struct{ m *Msg }
+type outStream struct {
+	m   *Msg
+	net *Net
+}
 
 func (o *outStream) Write(p []byte) (int, error) {
 	o.m.mu.Lock()
@@ -212,8 +266,8 @@ func (o *outStream) Write(p []byte) (int, error) {
 	return o.m.buf.Write(p)
 }
 func (o *outStream) Read([]byte) (int, error)     { return 0, io.EOF }
-func (o *outStream) Close() error                 { return nil }
-func (o *outStream) FullClose() error             { return nil }
+func (o *outStream) Close() error                 { o.net.markClosed(o.m); return nil }
+func (o *outStream) FullClose() error             { o.net.markClosed(o.m); return nil }
 func (o *outStream) Headers() p2p.Headers         { return o.m.Headers }
 func (o *outStream) ResponseHeaders() p2p.Headers { return nil }
 func (o *outStream) Reset() error {
